@@ -73,7 +73,7 @@ func init() {
 		if cfg.Tier == "thorough" {
 			n1 = 6
 		}
-		for _, s := range slicesUpTo([]int{1, 2, 3}, n1) {
+		for _, s := range slicesUpTo([]int{0, 1, 2}, n1) {
 			for v := 0; v <= 4; v++ {
 				r.call(hop("IndexOf", "", []int{v}, s))
 				r.call(hop("LastIndexOf", "", []int{v}, s))
